@@ -45,6 +45,7 @@ class Model:
         self.tpls = []
         self.graphics = False    # XML only: coordinates on elements, nails (ignored by the reader, must not disturb anything)
         self.layout = 0          # 0 plain label texts, 1 comments around them, 2 blank lines and blanks around them
+        self.encoding = "entities"   # XML only: how element text is written (entities, one CDATA section, text + CDATA, character references)
         self.insts = []      # (name, formal params [(kind,name)], template/instance name, [args])   args: ("k", K) / ("v", varname)
         self.procs = []      # names
         self.prio = []       # separators between consecutive processes: "," or "<"
@@ -173,6 +174,15 @@ def dyn_guard(m):
 
 
 def render_xml(m, queries=None):
+    saved = X.ENCODING
+    X.ENCODING = m.encoding
+    try:
+        return _render_xml(m, queries)
+    finally:
+        X.ENCODING = saved
+
+
+def _render_xml(m, queries=None):
     tpls = []
     for ti, t in enumerate(m.tpls + [None]):
         if m.dyn is not None and ti == min(m.dyn[0], len(m.tpls)):
@@ -448,6 +458,7 @@ def build(choose, common=False, bp_base=True):
     shortnames = bool(choose(2, "locnames"))
     m.graphics = bool(choose(2, "graphics")) if not common else False
     m.layout = choose(3, "labellayout")
+    m.encoding = ["entities", "cdata", "cdata-split", "charrefs"][choose(4, "xmlencoding")]
 
     m.gextra = [None, 951][choose(2, "gextra")]
     nt = [2, 1, 3][choose(3, "ntemplates")]
